@@ -605,7 +605,9 @@ Proof.
     destruct cur; try discriminate.
     + (* PVisit *) destruct (opt_is abort (f_n f)); loc I Ha.
     + (* PQuery *) destruct (opt_is failat (f_n f)); [destruct gj_releases_failed|destruct (limit_hit (S (length (f_res f))) limit)]; loc I Ha.
-    + (* PTrunc *) destruct (mem (tag_of (s_ix s) x) zero).
+    + (* PTrunc *) destruct (mem (tag_of (s_ix s) x) ofail).
+      { unfold trunc_cont. cbn [a_cur a_f with_cf f_n]. destruct (opt_is cancel (f_n f)); loc I Ha. }
+      destruct (mem (tag_of (s_ix s) x) zero).
       * loc I Ha.
       * unfold trunc_cont. cbn [a_cur a_f with_cf f_glob f_n]. destruct (opt_is cancel (f_n f)); loc I Ha.
   - (* CDj *)
@@ -645,7 +647,7 @@ Proof.
         -- apply DONE; auto.
       * fin. apply DONE; auto.
     + (* DjSize *) fin.
-      destruct (mem (tag_of (s_ix s) x) match cur with PTrunc _ _ sz _ _ => sz | _ => [] end);
+      destruct (mem (tag_of (s_ix s) x) match cur with PTrunc _ _ sz _ _ _ _ => sz | _ => [] end);
       (apply (inv_local _ _ _ _ I Ha); [apply WF | intros q; apply Nat.eq_le_incl; apply HOLD | intros q td _; apply HOLD | intros q; cbn; auto | intros q td; cbn; auto]).
     + (* DjUnlockSz *) unfold unlockx. destruct (get (s_ix s) x) as [td|] eqn:G.
       * pose proof (i_lock _ I i _ x td Ha eq_refl G) as E. destruct (i_excl _ I x td G E) as (R1 & _).
@@ -677,7 +679,7 @@ Proof.
       * rewrite upd_shiftl. apply (inv_inc s i _ _ [x] I Ha);
            [exact Logic.I | intros q; hs; lia | reflexivity | intros q [<-|[]]; eauto].
     + fin. loc I Ha.
-  - (* CGCb *) fin. loc I Ha.
+  - (* CGCb *) fin. destruct (mem (tag_of (s_ix s) x) match cur with PTrunc _ _ _ _ _ _ gf => gf | _ => [] end); loc I Ha.
   - (* CGRel *)
     assert (Hx : 0 < holds {| a_prog := prog; a_cur := cur; a_ctl := CGRel x; a_f := f; a_lost := lost |} x) by (hs; lia).
     rewrite (release_ok s i _ x I Ha eq_refl Hx). fin.
@@ -870,7 +872,7 @@ Proof.
       * unfold quiet. cbn [a_prog a_cur a_lost with_cf]. unfold quiet_proc at 2.
         destruct gj_releases_failed; [repeat split; auto|]. destruct failat; cbn in Q2, OI; discriminate.
       * destruct (limit_hit (S (length (f_res f))) limit); repeat split; auto.
-    + destruct (mem (tag_of ix x) zero); repeat split; auto.
+    + destruct (mem (tag_of ix x) ofail); [|destruct (mem (tag_of ix x) zero)]; repeat split; auto.
   - destruct st; [destruct (lockx ix x) as [ix0 []]| |destruct (unlockx ix x)| |destruct (unlockx ix x)]; injection E as <- <- <- <-; auto.
   - injection E as <- <- <- <-. unfold after_visit. cbn [a_cur]. destruct cur; auto.
   - destruct (f_gl f); injection E as <- <- <- <-; auto.
@@ -1093,7 +1095,8 @@ Proof.
     destruct cur; try discriminate.
     + destruct (opt_is abort (f_n f)); noinc.
     + destruct (opt_is failat (f_n f)); [destruct gj_releases_failed|destruct (limit_hit (S (length (f_res f))) limit)]; noinc.
-    + destruct (mem (tag_of ix x) zero); [noinc|]. unfold trunc_cont. cbn [a_cur a_f with_cf f_glob f_n]. destruct (opt_is cancel (f_n f)); noinc.
+    + destruct (mem (tag_of ix x) ofail); [unfold trunc_cont; cbn [a_cur a_f with_cf f_n]; destruct (opt_is cancel (f_n f)); noinc|].
+      destruct (mem (tag_of ix x) zero); [noinc|]. unfold trunc_cont. cbn [a_cur a_f with_cf f_glob f_n]. destruct (opt_is cancel (f_n f)); noinc.
   - assert (DONE : forall p, ~ holds {| a_prog := prog; a_cur := cur; a_ctl := CDj x st glob; a_f := f; a_lost := lost |} p <
                               holds (dj_done {| a_prog := prog; a_cur := cur; a_ctl := CDj x st glob; a_f := f; a_lost := lost |} x glob) p).
     { intros p. unfold dj_done. destruct glob; [hs; lia|]. destruct W as (T & _). destruct cur; try discriminate.
@@ -1114,7 +1117,7 @@ Proof.
   - destruct (f_gl f); injection E as <- <- <- <-; noinc.
   - unfold acq_id in E. destruct (get ix x) as [td|] eqn:G; [destruct (t_excl td) eqn:X|]; injection E as <- <- <- <-; try noinc.
     one x p H G X.
-  - injection E as <- <- <- <-; noinc.
+  - injection E as <- <- <- <-. destruct (mem (tag_of ix x) match cur with PTrunc _ _ _ _ _ _ gf => gf | _ => [] end); noinc.
   - destruct (release ix x); injection E as <- <- <- <-; noinc.
   - destruct cur; try discriminate. destruct (release ix x); injection E as <- <- <- <-; noinc.
 Qed.
@@ -1128,7 +1131,7 @@ Definition creates (a : actor) : nat :=
   list_sum (map is_create (a_prog a)) + match a_ctl a with CAcqT _ true => 1 | _ => 0 end.
 
 (* weight of a not yet visited element of the current visit *)
-Definition alpha (p : proc) : nat := match p with PTrunc _ _ _ _ _ => 40 | _ => 20 end.
+Definition alpha (p : proc) : nat := match p with PTrunc _ _ _ _ _ _ _ => 40 | _ => 20 end.
 Definition cost (N : nat) (p : proc) : nat :=
   match p with PWrite _ _ | PById _ _ => 5 | _ => alpha p * N + 7 end.
 
@@ -1211,12 +1214,13 @@ Proof.
     destruct cur; try discriminate.
     + destruct (opt_is abort (f_n f)); ms.
     + destruct (opt_is failat (f_n f)); [destruct gj_releases_failed|destruct (limit_hit (S (length (f_res f))) limit)]; ms.
-    + destruct (mem (tag_of ix x) zero); [ms|]. destruct (opt_is cancel (f_n f)); ms.
+    + destruct (mem (tag_of ix x) ofail); [destruct (opt_is cancel (f_n f)); ms|].
+      destruct (mem (tag_of ix x) zero); [ms|]. destruct (opt_is cancel (f_n f)); ms.
   - assert (CUR : glob = false -> is_trunc cur = true) by (intros ->; destruct W; auto).
     destruct st.
     + unfold lockx in E. destruct (get ix x) as [td|]; [destruct (negb (t_excl td) && (t_readers td =? 1)%Z)|]; injection E as <- <- <-; rewrite ?length_upd;
       unfold dj_done, trunc_cont; destruct glob; try (specialize (CUR eq_refl); destruct cur; try discriminate; cbn [a_cur a_f]; try destruct (opt_is cancel (f_n f))); ms.
-    + injection E as <- <- <-. destruct (mem (tag_of ix x) match cur with PTrunc _ _ sz _ _ => sz | _ => [] end); destruct glob; ms.
+    + injection E as <- <- <-. destruct (mem (tag_of ix x) match cur with PTrunc _ _ sz _ _ _ _ => sz | _ => [] end); destruct glob; ms.
     + unfold unlockx in E. destruct (get ix x) as [td|]; [destruct (negb (t_excl td) || negb (t_readers td =? 1)%Z)|]; injection E as <- <- <-; rewrite ?length_upd;
       unfold dj_done, trunc_cont; destruct glob; try (specialize (CUR eq_refl); destruct cur; try discriminate; cbn [a_cur a_f]; try destruct (opt_is cancel (f_n f))); ms.
     + injection E as <- <- <-. unfold delete. destruct (get ix x) as [td|]; [destruct (t_excl td)|]; cbn [fst]; rewrite ?length_upd; destruct glob; ms.
@@ -1228,7 +1232,7 @@ Proof.
     + destruct glob; ms.
   - destruct (f_gl f) eqn:GL; injection E as <- <- <-; ms; rewrite GL; ms.
   - unfold acq_id in E. destruct (get ix x) as [td|]; [destruct (t_excl td)|]; try discriminate; injection E as <- <- <-; rewrite ?length_upd; ms.
-  - injection E as <- <- <-. ms.
+  - injection E as <- <- <-. destruct (mem (tag_of ix x) match cur with PTrunc _ _ _ _ _ _ gf => gf | _ => [] end); ms.
   - unfold release in E. destruct (get ix x) as [td|]; [destruct (t_excl td); [|destruct (t_readers td <=? 0)%Z]|]; injection E as <- <- <-; rewrite ?length_upd; ms.
   - destruct cur; try discriminate. unfold release in E. destruct (get ix x) as [td|]; [destruct (t_excl td); [|destruct (t_readers td <=? 0)%Z]|]; injection E as <- <- <-; rewrite ?length_upd; ms.
 Qed.
